@@ -35,6 +35,12 @@ class ReaderHooks(Hooks):
                 return decide_with(interp, test, env, mod, facts=f)
         return None
 
+    def external(self, interp, name, args, kwargs, node, mod):
+        if name in ('os.path.exists', 'posixpath.exists', 'os.path.isfile') and len(args) == 1:
+            # the package is complete and stored uncompressed: every file the reader asks for is there under its plain name
+            return not (isinstance(args[0], str) and args[0].endswith('.gz'))
+        return NotImplemented
+
     def opaque(self, interp, fi, args, kwargs, node):
         q = fi.qual
         repo = interp.repo
